@@ -507,3 +507,41 @@ def frame_axes(P, rep, rule="SEG.frame"):
     else:
         rep.violation(rule, "the check point and the start of the first segment are not projected on the same axes from the same origin", F.nloc(decls["check_point_2d"]), F.qn,
                       str(forms)[:160], "distances in the local frame are offset", key="%s|projection" % rule, witness="any slab")
+
+
+def sphere_projection(P, rep, rule="GRID.sphere-projection"):
+    rep.rule(rule, "gwb-grid project_on_sphere(R, x, y, z) moves the point along its ray from the centre onto the sphere of radius R: the three "
+                   "outputs equal R*(x, y, z)/|(x, y, z)| (40-digit zero test of the extracted expressions at points of all eight octants)")
+    fs = [F for F in P.funcs.values() if F.qn.endswith("project_on_sphere") and F.body is not None and F.tu.startswith("gwb-grid")]
+    if len(fs) != 1 or len(fs[0].params) != 4:
+        rep.unknown(rule, "project_on_sphere(radius, x, y, z) not found")
+        return
+    F = fs[0]
+    R, x, y, z = sp.symbols("R x y z", real=True)
+    V = VecEval(P, F, env=dict(zip(F.params, (R, x, y, z))))
+    try:
+        V.run(astq.stmts_of(F.body))
+    except AnalysisBroken as e:
+        rep.unknown(rule, "project_on_sphere: %s" % e)
+        return
+    out = [V.env[pk] for pk in F.params[1:]]
+    nrm = sp.sqrt(x ** 2 + y ** 2 + z ** 2)
+    want = [R * x / nrm, R * y / nrm, R * z / nrm]
+    bad = None
+    for sx in (1, -1):
+        for sy in (1, -1):
+            for sz in (1, -1):
+                pt = {R: sp.Rational(6371, 1), x: sx * sp.Rational(3, 7), y: sy * sp.Rational(11, 13), z: sz * sp.Rational(5, 9)}
+                for i, (g, w) in enumerate(zip(out, want)):
+                    try:
+                        d_ = _at(g - w, pt)
+                    except Exception as e:
+                        rep.unknown(rule, "project_on_sphere: %s" % e)
+                        return
+                    if not abs(d_) < 1e-25:
+                        bad = (i, pt, g)
+    if bad:
+        rep.violation(rule, "project_on_sphere: output %d is %s" % (bad[0], str(bad[2])[:100]), F.loc, F.qn, str(bad[2])[:140], "expected R*p/|p|",
+                      key=rule, witness="a sphere grid: nodes are not on their rays / not at the requested radius")
+    else:
+        rep.ok(rule, "project_on_sphere = R*p/|p| in all octants", F.loc, F.qn)
